@@ -2,6 +2,7 @@
 import OlVerif.Json
 import OlVerif.Unparse.StrLit
 import OlVerif.Lower.Stmt
+import OlVerif.Api.Model
 
 namespace OlVerif
 open Lean
@@ -92,12 +93,54 @@ def opLower (j : Json) : Json :=
   | .ok j => j
   | .error e => errJ e
 
+def optsToJson (o : Opts) : Json := Json.mkObj (o.map fun (n, v) => (n, Json.str v))
+
+def apiOpOfJson (j : Json) : R ApiOp := do
+  let a ← jArr j
+  match (← jStr a[0]!) with
+  | "new" => pure .new
+  | "set" => pure (.set (← jNat a[1]!) (← jStr a[2]!) (← jStr a[3]!))
+  | "convert" => pure (.convert (← jNat a[1]!) (← jNat a[2]!))
+  | "convertDefault" => pure (.convertDefault (← jNat a[1]!))
+  | "reseed" => pure (.reseed (← jNat a[1]!))
+  | k => throw s!"api op {k}"
+
+def apiOutToJson : ApiOut → Json
+  | .none => "none"
+  | .valueError => "ValueError"
+  | .noSuchObject => "noobj"
+  | .text p o => .arr #["text", (p : Nat), optsToJson o]
+
+def opApi (j : Json) : Json :=
+  let r : R Json := do
+    let ops ← (← jArr (← j.getObjVal? "ops")).toList.mapM apiOpOfJson
+    pure (Json.mkObj [("outs", .arr ((apiRun {} ops).2.map apiOutToJson).toArray)])
+  match r with | .ok j => j | .error e => errJ e
+
+def opCli (j : Json) : Json :=
+  let r : R Json := do
+    let input ← jStr (← j.getObjVal? "input")
+    let output ← jOptStr (← j.getObjVal? "output")
+    let c ← jStrList (← j.getObjVal? "c")
+    let un ← jOptStr (← j.getObjVal? "unparser")
+    let files ← jStrList (← j.getObjVal? "fs")
+    let fs : Fs := files.map fun f => (f, "<src>")
+    let res := cli { input := input, output := output, cOpts := c, unparserFlag := un } fs
+    pure (Json.mkObj [
+      ("exit", match res.exit with | .ok => "ok" | .error w => Json.str ("error:" ++ w)),
+      ("written", match res.written with | some (f, o) => .arr #[.str f, optsToJson o] | none => .null),
+      ("stdout", match res.stdout with | some (_, o) => optsToJson o | none => .null),
+      ("files", .arr (res.fs.map fun (f, c) => Json.arr #[.str f, .str c]).toArray)])
+  match r with | .ok j => j | .error e => errJ e
+
 def handle (j : Json) : Json :=
   match j.getObjVal? "op" with
   | .ok (.str "unparse") => opUnparse j
   | .ok (.str "escape") => opEscape j
   | .ok (.str "decode") => opDecode j
   | .ok (.str "lower") => opLower j
+  | .ok (.str "api") => opApi j
+  | .ok (.str "cli") => opCli j
   | .ok (.str "ping") => Json.mkObj [("pong", .bool true)]
   | _ => errJ "unknown op"
 
